@@ -34,6 +34,7 @@ type Outcome struct {
 	FP         string        // fingerprint of the case for distinct counting ("" = distinct by construction)
 	Sample     interface{}   // compact human-readable rendering for evidence (optional)
 	Extra      map[string]int // additional counters to add up
+	Digest     string         // digest of the observable result; collected in generation order for cross-process comparison
 }
 
 // Spec describes one part of a property check.
@@ -79,6 +80,8 @@ type Stats struct {
 	Exhaustive  bool                   `json:"exhaustive"`
 	Completed   bool                   `json:"completed"`
 	Info        map[string]interface{} `json:"info,omitempty"`
+	Digests     []string               `json:"digests,omitempty"`
+	Cases       []json.RawMessage      `json:"digest_cases,omitempty"`
 }
 
 type recorder struct {
@@ -113,6 +116,13 @@ func (r *recorder) record(c interface{}, o Outcome) {
 	}
 	for k, v := range o.Extra {
 		r.st.Extra[k] += v
+	}
+	if o.Digest != "" && len(r.st.Digests) < 20000 {
+		r.st.Digests = append(r.st.Digests, hashFP(o.Digest))
+		if os.Getenv("VERIF_KEEP_CASES") != "" {
+			b, _ := json.Marshal(c)
+			r.st.Cases = append(r.st.Cases, b)
+		}
 	}
 	if o.Skip != "" {
 		r.st.Skips[o.Skip]++
